@@ -163,6 +163,11 @@ func (f *MakeArray) Call(s *slip.Scope, args slip.List, depth int) slip.Object {
 			bv := slip.BitVector{CanAdjust: adjustable}
 			return bv.Adjust(dims, slip.BitSymbol, initElement, initContents, fillPtr)
 		}
+		if initContents != nil {
+			// The vector has elements of its own, not the storage of the
+			// :initial-contents list.
+			initContents = append(slip.List{}, initContents...)
+		}
 		v := slip.NewVector(dims[0], elementType, initElement, initContents, adjustable)
 		v.FillPtr = fillPtr
 
